@@ -234,3 +234,32 @@ def cofactor(matrix, i, j):
     minor = [[matrix[r][c] for c in range(n) if c != j] for r in range(n) if r != i]
     d = det(minor)
     return -d if (i + j) % 2 else d
+
+
+def rewrite_power(x, sym, k, repl):
+    """Rat `x` with every power sym^(k*j + i) replaced by repl^j * sym^i (i < k), in numerator and denominator: the normal form of x
+    modulo the relation sym^k = repl.  `repl` must not contain `sym`."""
+    x, repl = _r(x), _r(repl)
+
+    def one(p):
+        maxe = max((dict(m).get(sym, 0) for m in p.t), default=0)
+        if maxe < k:
+            return Rat(p)
+        acc = Rat(Poly.const(0))
+        pw = {0: Rat(Poly.const(1))}
+        for e in range(maxe + 1):
+            ck = p.coeff_of(sym, e)
+            if ck.is_zero():
+                continue
+            j, i = divmod(e, k)
+            if j not in pw:
+                for jj in range(1, j + 1):
+                    if jj not in pw:
+                        pw[jj] = pw[jj - 1] * repl
+            term = Rat(ck) * pw[j]
+            if i:
+                term = term * Rat(Poly({((sym, i),): Fraction(1)}))
+            acc = acc + term
+        return acc
+    n, d = one(x.n), one(x.d)
+    return n / d
